@@ -33,6 +33,10 @@ T = {
         tech="TLA+ decomposition checked with TLC: ACPrefilterMC (every admissible start-byte / rare-byte / memmem / packed prefilter answers every probe soundly) + ACSearch/ACOverlap with an abstract prefilter that may return ANY sound candidate; TLC trace validation of direct probes of the real prefilters, of which variant was built, and of prefilter on/off searches",
         text="Model: (admissible => sound) for all parameter choices within bounds, and the search/overlapping loops are correct for every sound candidate at every probe, so transparency holds for whatever the byte-frequency heuristic picks. Implementation: the variant actually built is read from the public Debug output, its direct find_in answers on generated haystacks/spans must be sound (property level) and equal the model's candidate (drift level), and searches with the option on and off are both validated against the oracle on haystacks up to 120/300 bytes with planted candidate bytes.",
         ref="6 C05"),
+    "C06": dict(
+        tech="TLA+ spec ACPacked (Teddy with symbolic vector width / bucket count / fingerprint length incl. carry, overlapping final window, Rabin-Karp fallback, half-width fallback; Rabin-Karp with arbitrary hash collisions) model-checked with TLC; TLC trace validation of packed::Searcher results for every forced variant with a planted match at every offset",
+        text="The window arithmetic, bucket assignment, candidate over-approximation and (position, bucket, semantic order) verification are exhausted for small vector widths over all patterns/haystacks/spans against the leftmost oracle (PackedCorrect, Coverage, LoadInBounds). On this CPU (SSSE3+AVX2) Rabin-Karp, slim 128, slim 256, fat 256, only_teddy and the default are each run on haystacks of length 0..67 with a match planted at every offset, fillers sharing nybbles, colliding fingerprints, >8/>16 prefixes and up to 128 patterns; find_in and find_iter results are validated by TLC.",
+        ref="6 C06", note=TRUST + "; SIMD lane semantics and the 64-bit hash arithmetic are not modelled bit-exactly (bound through results)"),
     "C07": dict(
         tech="TLA+ spec ACStream (Buffer fill/roll + StreamChunkIter, nondeterministic reader) model-checked with TLC over all read schedules and capacities; TLC trace validation (TraceStream) of recorded runs of the real stream search with scripted readers and hooked buffer capacity",
         text="TLC explores every read-size schedule for every small stream / pattern list / capacity min+{1,2,3,6} and checks that matches equal the in-memory iterator's (MatchPrefix, Complete) and the buffer indices never go wrong; every recorded run of the real StreamFindIter / stream replacement (exhaustive scripts on short streams at minimal capacities, seeded random longer ones up to the default capacity) is replayed action by action through the same specification, with all invariants evaluated at each step.",
@@ -73,6 +77,18 @@ T = {
         tech="TLA+ spec ACSearch with transition / failure-step counters and the invariants WorkBound, PositionMonotone, FailShortens model-checked with TLC; TLC trace validation of the real counters (hooks) per call on adversarial pattern families",
         text="In the model every step consumes one byte, fails + depth(state) <= transitions and every failure link strictly shortens, for all configurations within bounds (incl. prefilter skips). On the real code the hook counters of each call must satisfy transitions <= span length, failure steps <= transitions (0 for a DFA) - property level - and equal the model's exact counts where no prefilter is involved - drift level; a watchdog turns a non-terminating failure walk into a recorded panic.",
         ref="6 C19", note=TRUST + "; hooks H2/H4 (thread-local counters in the search loops and in both NFA next_state failure loops, cfg aho_corasick_verif)"),
+    "C15": dict(
+        tech="TLA+ invariants LoadInBounds / MatchInSpan of ACPacked model-checked with TLC; exploration of the real code in a child process on haystacks placed flush against PROT_NONE pages (both sides), every crash attributed to its input; TLC validation of well-formedness (start <= end <= len, id < n) of every recorded match",
+        text="The specification contributes the in-bounds window arithmetic for all lengths with small vector widths; the implementation is explored: all search/replace APIs with every prefilter variant and every packed variant on haystacks of each length 0..104 ending at (resp. starting after) an inaccessible page, with random bytes and patterns cut off by the end of the haystack. A SIGSEGV/SIGBUS/abort or a panic is a violation; all results are additionally validated against the oracle.",
+        ref="6 C15", note="memory safety of unsafe Rust is outside what a TLA+ model proves; guard pages detect reads beyond either end of the slice (>= 1 byte), not reads inside the mapped pages but outside the slice; no sanitizer/Miri is used (other technique family)"),
+    "C17": dict(
+        tech="TLA+ spec ACShared (clients interleaving Begin/Return on an immutable searcher; frame condition aut' = aut) model-checked with TLC; TLC validation of per-thread call histories recorded from 2-16 real threads sharing one searcher and clones, plus sequential re-orderings",
+        text="In the model no action changes the searcher and every return value is the oracle's value under all interleavings. On the real code threads start on a barrier and run shuffled call sequences on a shared Arc<AhoCorasick> and on clones; every result is validated against the oracle by TLC (so it equals the sequential one) and the searcher's complete Debug dump must be unchanged afterwards. Level: exploration of the schedules the OS produced.",
+        ref="6 C17", note="TLC validates recorded histories; it cannot prove the absence of interior mutability in Rust source (a textual scan is recorded as an observation, it never decides)"),
+    "C20": dict(
+        tech="TLA+ ACApi (KindOK, MetaOK, AutoKind) evaluated by TLC on build records over the option product and shape-diverse collections; TLC validation that reported pattern ids are genuine occurrences / the oracle's ids; product exploration metadata check (MetaOK in Prod)",
+        text="Every combination of requested kind x match kind x start kind x 4 option sets is built for collections of diverse shape (none, only empty, duplicates, all 256 bytes, 256-way fan-out, 300-byte pattern, 100/101 patterns, nested, random; thorough: thousands of patterns) under catch_unwind; TLC checks success, the honoured kind, patterns_len/min/max/per-pattern lengths/match kind/start kind, and that the id in a match names a pattern that occurs there. The automatic choice is compared with the model at drift level only.",
+        ref="6 C20", note=TRUST + "; limit-exceeding collections (>= 2^24 states) are not attempted"),
     "C16": dict(
         tech="product exploration of the real automata (all reachable states x all bytes x both anchoring arguments) with the TLA+ specification automaton by TLC; trace validation of the documented caller-written loop vs the built-in search",
         text="For each dumped automaton the local contract (dead absorbing, dead/match special, special => dead/match/start, valid non-empty match lists, start_state errors) is evaluated by TLC on every state of the closure under both anchoring arguments, and the consistent-mode product agrees with the specification; the documented recipe, run on the real automata, is validated against the oracle next to try_find.",
